@@ -72,7 +72,7 @@ impl Prop for C19 {
         }
     }
     fn rule(&self) -> String {
-        "generated: 10 harness-defined blocks using #[derive(rustradio_macros::Block)] (sync 1->1, 1->2, 1->3, 2->1, 2->2, 2->3 with a distinct function per output; sync_tag 1->1 and 2->1; default+into fields; a non-sync block with generated new() over a copy and a non-copy output) under C08-style drip schedules with unequal input lengths and unequal free space per output. Oracle per work() call: steps = min(shortest input, smallest output space); every input loses exactly `steps`, every output gains exactly `steps`, verdict Again; with steps = 0 nothing moves and the verdict names an empty input or a full output. Final outputs equal the per-port functions (so read ends come back in declaration order), tags follow the first input plus the block's own. eof() is enumerated over all input states. Non-trivial: some call saw unequal inputs or unequal output space; distinct = hash of the case.".into()
+        "generated: 10 harness-defined blocks using #[derive(rustradio_macros::Block)] (sync 1->1, 1->2, 1->3, 2->1, 2->2, 2->3 with a distinct function per output; sync_tag 1->1 and 2->1; default+into fields; a non-sync block with generated new() over a copy and a non-copy output) under C08-style drip schedules with unequal input lengths and unequal free space per output. Oracle per work() call: steps = min(shortest input, smallest output space); every input loses exactly `steps`, every output gains exactly `steps`, the per-sample function runs exactly `steps` times, verdict Again; with steps = 0 nothing moves and the verdict names an empty input or a full output. Final outputs equal the per-port functions (so read ends come back in declaration order), tags follow the first input plus the block's own. eof() is enumerated over all input states. Non-trivial: some call saw unequal inputs or unequal output space; distinct = hash of the case.".into()
     }
     fn assumptions(&self) -> Vec<String> {
         vec!["calls made after the harness dropped a stream end are not judged (buffered counts are unobservable then)".into()]
@@ -164,6 +164,13 @@ fn run_drip(case: &DripCase, ctx: &mut Ctx) {
                     return;
                 }
             } else {
+                if c.probe_delta != steps as u64 {
+                    ctx.fail(
+                        format!("C19/process-invocations/{name}"),
+                        format!("call #{ci}: {steps} steps were taken but the per-sample function ran {} times", c.probe_delta),
+                    );
+                    return;
+                }
                 let ok = c.consumed.iter().all(|x| *x == steps) && c.produced.iter().all(|x| *x == steps) && c.verdict == Verdict::Again;
                 if !ok {
                     ctx.fail(
